@@ -61,6 +61,27 @@ Theorem C30_sha_crypt_full_equality : forall is512 pw hv,
     = firstn (if is512 then 64 else 32)%nat (d ++ repeat 0 (if is512 then 64 else 32)%nat).
 Proof. exact sha_check_full_equality. Qed.
 
+(* DEFECT FOUND BY THIS CHECK on the originally pinned tree, fixed by /repo a666989: importing
+   {crypt}$5$rounds=1000$saltsalt$*** succeeded and every later verify PANICKED (sha-crypt's
+   decode_sha256 unwraps the decode error); the fixed code answers Ok(false); $6$ never panicked. *)
+Theorem C30_prefix_sha256_crypt_panics :
+  let hv := str "$5$rounds=1000$saltsalt$***" in
+  sha_check_gen false false (str "password") hv = VPanic /\
+  sha_check_gen true false (str "password") hv = VOk false /\
+  sha_check_gen false true (str "password") (str "$6$rounds=1000$saltsalt$***") = VOk false.
+Proof. exact prefix_panics. Qed.
+
+(* The fix only removes behaviour: what the fixed sha-crypt check accepts, the pre-fix check
+   accepted; and both are the same function on sha512-crypt and on every sha256-crypt string
+   whose last '$'-field is a canonical 43-character hash. *)
+Theorem C30_fix_only_restricts : forall is512 pw hv,
+  sha_check_gen true is512 pw hv = VOk true -> sha_check_gen false is512 pw hv = VOk true.
+Proof. exact fix_only_restricts. Qed.
+Theorem C30_fix_same_on_canonical : forall is512 pw hv,
+  is512 = true \/ sha256_field_ok hv = true ->
+  sha_check_gen true is512 pw hv = sha_check_gen false is512 pw hv.
+Proof. exact fix_same_on_canonical. Qed.
+
 (* The padded base64 decoders kanidm uses (STANDARD, URL_SAFE; with or without trailing-bit
    tolerance) invert the standard encoder on every byte string; likewise hex in both cases. *)
 Theorem C30_base64_decode_encode : forall url trail b, Bytes b ->
